@@ -205,7 +205,7 @@ theorem netRead_lines (sep : Char) (hs : SepOK sep) (hdr d : Nat) (es : List NEd
 /-- **T4 (network file)** -/
 theorem net_file_roundtrip (sep : Char) (hs : SepOK sep) (d : Nat) (es : List NEdge) (he : ∀ e ∈ es, EdgeOK sep e) :
     netRead ⟨0, 1, 2, 3, 4, sep, 1⟩ (netWrite sep 1 d es) = .ok (es.map (expEdge d))
-    ∧ netRead ⟨0, 1, 2, 3, 4, sep, 0⟩ (netWrite sep 0 d es) = .ok (es.tail.map (expEdge d)) := by
+    ∧ netRead ⟨0, 1, 2, 3, 4, sep, 0⟩ (netWrite sep 0 d es) = .ok (es.map (expEdge d)) := by
   have hnl : ∀ l ∈ es.map (edgeBody sep d), '\n' ∉ l := by
     intro l hl
     simp only [List.mem_map] at hl
@@ -226,13 +226,13 @@ theorem net_file_roundtrip (sep : Char) (hs : SepOK sep) (d : Nat) (es : List NE
       rcases List.mem_cons.1 hl with rfl | hl
       · exact hdrBody_nl sep hs
       · exact hnl l hl)]
-    simp only [List.map_cons, Nat.max_self, List.drop_succ_cons, List.drop_zero, List.map_map]
+    simp only [List.map_cons, List.drop_succ_cons, List.drop_zero, List.map_map]
     exact netRead_lines sep hs 1 d es he
   · unfold netRead netWrite
     have h01 : ¬ (0 = 1) := by decide
     simp only [h01, ↓reduceIte, List.nil_append]
     rw [hrows, fileLines_flatten _ hnl]
-    simp only [List.map_map, Nat.zero_le, Nat.max_eq_left, ← List.map_drop, List.drop_one]
-    exact netRead_lines sep hs 0 d es.tail (fun e hem => he e (List.mem_of_mem_tail hem))
+    simp only [List.map_map, List.drop_zero]
+    exact netRead_lines sep hs 0 d es he
 
 end TV.TextIO
